@@ -15,25 +15,34 @@ pub struct Src {
     pub toks: [(&'static str, u32, RawTokenType, TokenType); 3],
 }
 
+/// Token texts are prefixes of constants that carry one more byte: a cursor at the very end of a
+/// multi-line token makes the code slice `&content[len..]`, and CBMC loses constant propagation on a
+/// one-past-the-end pointer of a string constant (measured: 47 s of symbolic execution against
+/// 0.3 s, and out of memory in the full harness). With the pad the empty tail still points into
+/// the object. The pad byte is never part of any `str` handed to the code.
+pub const fn pad(s: &'static str) -> &'static str {
+    unsafe { std::str::from_utf8_unchecked(std::slice::from_raw_parts(s.as_ptr(), s.len() - 1)) }
+}
+
 pub const LIST1: Src = Src { toks: [
-    ("ab", 0, RawTokenType::Identifier, TokenType::Identifier),
-    ("  cd", 2, RawTokenType::Identifier, TokenType::Identifier),
-    ("\n", 1, RawTokenType::Eof, TokenType::Eof),
+    (pad("ab\0"), 0, RawTokenType::Identifier, TokenType::Identifier),
+    (pad("  cd\0"), 2, RawTokenType::Identifier, TokenType::Identifier),
+    (pad("\n\0"), 1, RawTokenType::Eof, TokenType::Eof),
 ] };
 pub const LIST2: Src = Src { toks: [
-    ("//x", 0, RawTokenType::Comment(CommentKind::IndividualLine), TokenType::Comment(CommentKind::IndividualLine)),
-    ("\n  cd", 3, RawTokenType::Identifier, TokenType::Identifier),
-    ("", 0, RawTokenType::Eof, TokenType::Eof),
+    (pad("//x\0"), 0, RawTokenType::Comment(CommentKind::IndividualLine), TokenType::Comment(CommentKind::IndividualLine)),
+    (pad("\n  cd\0"), 3, RawTokenType::Identifier, TokenType::Identifier),
+    (pad("\0"), 0, RawTokenType::Eof, TokenType::Eof),
 ] };
 pub const LIST3: Src = Src { toks: [
-    ("{a\n b}", 0, RawTokenType::Comment(CommentKind::MultilineBlock), TokenType::Comment(CommentKind::MultilineBlock)),
-    ("\n\n cd", 3, RawTokenType::Identifier, TokenType::Identifier),
-    (" \n", 2, RawTokenType::Eof, TokenType::Eof),
+    (pad("{a\n b}\0"), 0, RawTokenType::Comment(CommentKind::MultilineBlock), TokenType::Comment(CommentKind::MultilineBlock)),
+    (pad("\n\n cd\0"), 3, RawTokenType::Identifier, TokenType::Identifier),
+    (pad(" \n\0"), 2, RawTokenType::Eof, TokenType::Eof),
 ] };
 pub const LIST4: Src = Src { toks: [
-    ("ab", 0, RawTokenType::Identifier, TokenType::Identifier),
-    (" '''\n x\n '''", 1, RawTokenType::TextLiteral(TextLiteralKind::MultiLine), TokenType::TextLiteral(TextLiteralKind::MultiLine)),
-    ("\n", 1, RawTokenType::Eof, TokenType::Eof),
+    (pad("ab\0"), 0, RawTokenType::Identifier, TokenType::Identifier),
+    (pad(" '''\n x\n '''\0"), 1, RawTokenType::TextLiteral(TextLiteralKind::MultiLine), TokenType::TextLiteral(TextLiteralKind::MultiLine)),
+    (pad("\n\0"), 1, RawTokenType::Eof, TokenType::Eof),
 ] };
 
 /// `contract`: assume the stage contracts (K-OLF, K-BRK, K-EOF) on the new layout -- the C15
@@ -439,17 +448,92 @@ rel! {
     c15_b_relocate_list1_cmax => (LIST1, u32::MAX, u32::MAX, false, 2, 4, false, true),
 }
 
+// ---------------------------------------------------------------------------------------------
+// Lists of cursors: every cursor is treated on its own, whatever the order of the list (the
+// property quantifies over *lists* of offsets; nothing says they are ascending or distinct).
+
+/// A2: `process_cursors` on the list [c0, c1] attaches each cursor exactly as the reference
+/// attaches it alone (ascending, descending, equal, one beyond the end).
+pub fn a2_body(src: Src, c0: u32, c1: u32) {
+    let recon = DelphiLogicalLinesReconstructor::new(recon_settings(false, false, 2, 4));
+    let raw = raw_tokens(&src);
+    let got = rh::attach2(&recon, c0, c1, &raw);
+    let want0 = ref_attach(&src, c0);
+    let want1 = ref_attach(&src, c1);
+    note!("c0", c0);
+    note!("c1", c1);
+    assert!(got[0].0 == want0.0 && got[0].1 == want0.1, "first cursor of a list attached differently from the same cursor alone");
+    assert!(got[1].0 == want1.0 && got[1].1 == want1.1, "second cursor of a list attached differently from the same cursor alone");
+    cover!(c0 > c1, "descending");
+    cover!(c0 <= c1, "not_descending");
+    std::mem::forget(recon);
+}
+
+/// B2: `relocate_cursors` on two attached cursors == the two single-cursor results, on a symbolic
+/// new layout (stage contracts as in B).
+pub fn b2_body(src: Src, c0: u32, c1: u32, hard: bool, iw: u8, cw: u8) {
+    let s = Settings { crlf: kani::any(), hard, iw, cw };
+    let cb = any_counters(2, 1);
+    let ca = Counters { ignored: false, nl: 0, ind: 0, cont: 0, sp: 0 };
+    let ce = Counters { ignored: false, nl: 1, ind: 0, cont: 0, sp: 0 };
+    kani::assume(cb.nl > 0 || (cb.ind == 0 && cb.cont == 0));
+    kani::assume(cb.nl == 0 || cb.sp == 0);
+    let a = src.toks[0].3;
+    let needs_break = is_singleline_comment(a) || matches!(a, TokenType::Comment(CommentKind::MultilineBlock));
+    let b_own_line = matches!(src.toks[1].3, TokenType::TextLiteral(TextLiteralKind::MultiLine) | TokenType::Comment(CommentKind::MultilineBlock | CommentKind::IndividualBlock | CommentKind::IndividualLine));
+    kani::assume(!(needs_break || b_own_line) || cb.nl > 0);
+    let recon = DelphiLogicalLinesReconstructor::new(recon_settings(s.crlf, s.hard, s.iw, s.cw));
+    let mut toks = [tok(src.toks[0].0, src.toks[0].1, src.toks[0].3), tok(src.toks[1].0, src.toks[1].1, src.toks[1].3), tok(src.toks[2].0, src.toks[2].1, src.toks[2].3)];
+    let fmt = vec![fd(ca.ignored, ca.nl, ca.ind, ca.cont, ca.sp), fd(cb.ignored, cb.nl, cb.ind, cb.cont, cb.sp), fd(ce.ignored, ce.nl, ce.ind, ce.cont, ce.sp)];
+    let ft = FormattedTokens::verif_new(&mut toks, fmt);
+    let at0 = ref_attach(&src, c0);
+    let at1 = ref_attach(&src, c1);
+    let both = rh::relocate2(&recon, [at0, at1], &ft);
+    let one0 = rh::relocate(&recon, at0.0, at0.1, &ft);
+    let one1 = rh::relocate(&recon, at1.0, at1.1, &ft);
+    note!("c0", c0);
+    note!("c1", c1);
+    assert!(both[0] == one0, "first cursor of a list re-projected differently from the same cursor alone");
+    assert!(both[1] == one1, "second cursor of a list re-projected differently from the same cursor alone");
+    cover!(cb.nl == 2, "blank_line_in_new_layout");
+    cover!(true, "checked");
+    std::mem::forget(ft);
+    std::mem::forget(recon);
+}
+
+macro_rules! att2 { ($($name: ident => ($src: expr, $c0: expr, $c1: expr)),* $(,)?) => {$(
+    cursor_harness! { fn $name() unwind(20) { a2_body($src, $c0, $c1) } }
+)*}}
+att2! {
+    c15_a2_attach_pair_list1_5_1 => (LIST1, 5, 1),
+    c15_a2_attach_pair_list1_1_5 => (LIST1, 1, 5),
+    c15_a2_attach_pair_list1_3_3 => (LIST1, 3, 3),
+    c15_a2_attach_pair_list1_9_2 => (LIST1, 9, 2),
+    c15_a2_attach_pair_list1_7_0 => (LIST1, 7, 0),
+    c15_a2_attach_pair_list3_8_2 => (LIST3, 8, 2),
+    c15_a2_attach_pair_list4_14_1 => (LIST4, 14, 1),
+}
+macro_rules! rel2 { ($($name: ident => ($src: expr, $c0: expr, $c1: expr, $h: expr, $iw: expr, $cw: expr)),* $(,)?) => {$(
+    cursor_harness! { fn $name() unwind(20) { b2_body($src, $c0, $c1, $h, $iw, $cw) } }
+)*}}
+rel2! {
+    c15_b2_relocate_pair_list1_5_1 => (LIST1, 5, 1, false, 2, 4),
+    c15_b2_relocate_pair_list1_3_9 => (LIST1, 3, 9, true, 1, 1),
+    c15_b2_relocate_pair_list3_8_2 => (LIST3, 8, 2, false, 2, 4),
+    c15_b2_relocate_pair_list4_14_1 => (LIST4, 14, 1, false, 2, 4),
+}
+
 /// A deeply indented multi-line literal that the formatter re-indents (token 0's text shrinks).
 pub const LIST7: Src = Src { toks: [
-    ("\'\'\'\n      x\n      \'\'\'", 0, RawTokenType::TextLiteral(TextLiteralKind::MultiLine), TokenType::TextLiteral(TextLiteralKind::MultiLine)),
-    (";", 0, RawTokenType::Op(OperatorKind::Semicolon), TokenType::Op(OperatorKind::Semicolon)),
-    ("\n", 1, RawTokenType::Eof, TokenType::Eof),
+    (pad("\'\'\'\n      x\n      \'\'\'\0"), 0, RawTokenType::TextLiteral(TextLiteralKind::MultiLine), TokenType::TextLiteral(TextLiteralKind::MultiLine)),
+    (pad(";\0"), 0, RawTokenType::Op(OperatorKind::Semicolon), TokenType::Op(OperatorKind::Semicolon)),
+    (pad("\n\0"), 1, RawTokenType::Eof, TokenType::Eof),
 ] };
 /// CRLF line ends inside a multi-line token and in the blanks (input with Windows line endings).
 pub const LIST8: Src = Src { toks: [
-    ("{a\r\n b}", 0, RawTokenType::Comment(CommentKind::MultilineBlock), TokenType::Comment(CommentKind::MultilineBlock)),
-    ("\r\n cd", 3, RawTokenType::Identifier, TokenType::Identifier),
-    ("\r\n", 2, RawTokenType::Eof, TokenType::Eof),
+    (pad("{a\r\n b}\0"), 0, RawTokenType::Comment(CommentKind::MultilineBlock), TokenType::Comment(CommentKind::MultilineBlock)),
+    (pad("\r\n cd\0"), 3, RawTokenType::Identifier, TokenType::Identifier),
+    (pad("\r\n\0"), 2, RawTokenType::Eof, TokenType::Eof),
 ] };
 macro_rules! crlf { ($($an: ident, $bn: ident => ($c: expr)),* $(,)?) => {$(
     cursor_harness! { fn $an() unwind(20) { a_body(LIST8, $c, $c) } }
